@@ -31,7 +31,7 @@ DEFAULT_PROFILE = {
     "p_http": 0.9, "p_signature": 0.7, "p_routing": 0.25, "p_keyword_rpc": 0.08,
     "p_service_config": 0.8, "p_yaml": 0.3, "p_reserved_field": 0.08, "p_two_services": 0.25,
     "p_foreign_request": 0.1, "p_shuffle_numbers": 0.2, "p_additional_binding": 0.25,
-    "p_auto_populate": 0.0,
+    "p_auto_populate": 0.0, "p_google_api_ns": 0.0, "common_file_names": ["resources"],
     "transports": ["grpc", "grpc+rest", "grpc+rest", "rest"],
     "p_numeric_enums": 0.3,
     "paged_variants": False,
@@ -116,7 +116,9 @@ def _number_seq(cx, n, start=1):
 def gen_api(rng, prof=None):
     cx = _Ctx(rng, prof or DEFAULT_PROFILE)
     p = cx.p
-    ns = rng.choice([["acme"], ["acme", "cloud"], ["example"]])  # no-namespace packages excluded: setup.py.j2 needs one (C01/C11, not claimed)
+    ns = rng.choice([["acme"], ["acme", "cloud"], ["example"]])
+    if cx.chance("p_google_api_ns"):
+        ns = ["google", "api"]      # ancestor package google.api defines messages (HttpRule, ...) present in every request  # no-namespace packages excluded: setup.py.j2 needs one (C01/C11, not claimed)
     name = rng.choice(["widgets", "library", "depot", "foundry"])
     ver = rng.choice(["v1", "v1", "v1beta1", "v2alpha", "v2"])
     pkg = ".".join(ns + [name, ver])
@@ -125,9 +127,11 @@ def gen_api(rng, prof=None):
     host = f"{name}.example.com"
     main = {"name": f"{pdir}/{name}_service.proto", "package": pkg, "messages": [], "enums": [], "services": []}
     files = [main]
+    cx.files = files
     common = main
     if cx.chance("p_second_file"):
-        common = {"name": f"{pdir}/resources.proto", "package": pkg, "messages": [], "enums": []}
+        common = {"name": f"{pdir}/{rng.choice(p.get('common_file_names') or ['resources'])}.proto", "package": pkg,
+                  "messages": [], "enums": [], "role": "common"}
         files.insert(0, common)
 
     # shared enum + detail message
@@ -382,7 +386,9 @@ def _gen_methods(cx, pkg, main, svc, noun, res, enums, msgs):
         svc["methods"].append({"name": f"Sync{noun}s", "input": P + "." + noun, "output": P + "." + noun,
                                "client_streaming": True, "server_streaming": True})
 
-    if cx.chance("p_lro") and _unique_method(svc, f"Rebuild{noun}"):
+    if cx.chance("p_lro") and cx.p.get("lro_variants") and _unique_method(svc, f"Rebuild{noun}"):
+        _gen_lro_variant(cx, pkg, main, svc, noun, res)
+    elif cx.chance("p_lro") and _unique_method(svc, f"Rebuild{noun}"):
         _msg(main, f"Rebuild{noun}Request", [{"name": "name", "number": 1, "type": "string", "required": True,
                                                "resource_ref": rtype},
                                               {"name": "deep", "number": 2, "type": "bool"}])
@@ -397,11 +403,84 @@ def _gen_methods(cx, pkg, main, svc, noun, res, enums, msgs):
             m["signatures"] = ["name"]
         svc["methods"].append(m)
 
+    if cx.chance("p_raw_op") and _unique_method(svc, f"Start{noun}"):
+        _msg(main, f"Start{noun}Request", [{"name": "name", "number": 1, "type": "string", "required": True,
+                                             "resource_ref": rtype}])
+        m = {"name": f"Start{noun}", "input": f"{P}.Start{noun}Request", "output": ".google.longrunning.Operation"}
+        if cx.chance("p_http"):
+            m["http"] = {"verb": "post", "path": f"{pre}/{{name={wild}}}:start", "body": "*"}
+        svc["methods"].append(m)
+
     if cx.chance("p_foreign_request") and _unique_method(svc, "SetIamPolicy"):
         m = {"name": "SetIamPolicy", "input": ".google.iam.v1.SetIamPolicyRequest", "output": ".google.iam.v1.Policy"}
         if cx.chance("p_http"):
             m["http"] = {"verb": "post", "path": f"{pre}/{{resource={wild}}}:setIamPolicy", "body": "*"}
         svc["methods"].append(m)
+
+
+def _gen_lro_variant(cx, pkg, main, svc, noun, res):
+    """LRO method whose operation_info names are written relative or fully-qualified and whose types
+    live in the service's file, in another target file that is imported, in a target file that is
+    NOT imported by the service's file, or are google.protobuf.Empty (DESIGN.md section 4 C08)."""
+    rng = cx.rng
+    P = "." + pkg
+    spec_files = cx.files
+    rtype = res["msg"]["resource"]["type"]
+    pdir = pkg.replace(".", "/")
+
+    def place(msg, where):
+        if where == "same":
+            main["messages"].append(msg)
+        elif where == "unimported":
+            f = next((f for f in spec_files if f.get("role") == "results"), None)
+            if f is None:
+                f = {"name": f"{pdir}/results.proto", "package": pkg, "messages": [], "enums": [], "role": "results"}
+                spec_files.insert(0, f)
+            f["messages"].append(msg)
+        else:  # "common": the resources file when there is one (imported iff something references it)
+            f = next((f for f in spec_files if f.get("role") == "common"), main)
+            f["messages"].append(msg)
+
+    def written(name):
+        return name if rng.random() < 0.5 else f"{pkg}.{name}"
+
+    _msg(main, f"Rebuild{noun}Request", [{"name": "name", "number": 1, "type": "string", "required": True,
+                                           "resource_ref": rtype},
+                                          {"name": "deep", "number": 2, "type": "bool"}])
+    c = rng.random()
+    if c < 0.2:
+        resp = "google.protobuf.Empty"
+    elif c < 0.45:
+        resp = written(noun)                      # the resource itself (wherever it lives)
+    else:
+        rn = f"Rebuild{noun}Result"
+        if pkg.startswith("google.api.") and rng.random() < 0.6:
+            # same short name as a message of the ancestor package google.api that is in the request
+            cands = [d for d in ("HttpRule", "Http", "CustomHttpPattern", "ResourceDescriptor", "ResourceReference")
+                     if not any(mm["name"] == d for f in spec_files for mm in f["messages"])]
+            if cands:
+                rn = rng.choice(cands)
+        place({"name": rn, "fields": [{"name": "name", "number": 1, "type": "string"},
+                                      {"name": "rebuilt_parts", "number": 2, "type": "int32"},
+                                      {"name": "warnings", "number": 3, "type": "string", "repeated": True}]},
+              rng.choice(["same", "unimported", "common"]))
+        resp = written(rn)
+    c = rng.random()
+    if c < 0.12:
+        meta = "google.protobuf.Empty"
+    else:
+        mn = f"Rebuild{noun}Metadata"
+        place({"name": mn, "fields": [{"name": "progress", "number": 1, "type": "int32"},
+                                      {"name": "stage", "number": 2, "type": "string"}]},
+              rng.choice(["same", "same", "unimported", "common"]))
+        meta = written(mn)
+    m = {"name": f"Rebuild{noun}", "input": f"{P}.Rebuild{noun}Request", "output": ".google.longrunning.Operation",
+         "lro": {"response_type": resp, "metadata_type": meta}}
+    if cx.chance("p_http"):
+        m["http"] = {"verb": "post", "path": f"{_path_prefix(cx)}/{{name={_wild(res['pattern'])}}}:rebuild", "body": "*"}
+    if cx.chance("p_signature"):
+        m["signatures"] = ["name"]
+    svc["methods"].append(m)
 
 
 def p_variants(cx):
